@@ -23,7 +23,8 @@ import wsdiff  # noqa: E402
 
 BASE = ['add:n1,a', 'add:n1,b', 'add:n2,a', 'add:n3,bad', 'replace:n2,a', 'replace:n1,b', 'remove:n1,a', 'remove:n1,b', 'clear', 'deploy', 'eval:a', 'tck:b']
 MALFORMED = ['badjson:add', 'badjson:replace', 'nocontent:add', 'nocontent:remove', 'badb64:add', 'badb64:replace', 'badutf8:add/n2,b', 'badutf8:replace/n1,a', 'badxml:add', 'badxml:replace',
-             'unknowneval', 'unknowninvocable:a', 'badcontext:a', 'tckempty', 'notfound', 'tckstring', 'tcknil', 'wrongtype:add', 'wrongtype:remove', 'stringforobject:replace']
+             'unknowneval', 'unknowninvocable:a', 'badcontext:a', 'tckempty', 'notfound', 'tckstring', 'tcknil', 'wrongtype:add', 'wrongtype:remove', 'stringforobject:replace',
+             'longeval:even', 'longeval:odd', 'longtck:even', 'longtck:odd', 'longxsd:even', 'longxsd:odd']
 PROBE = ['deploy', 'eval:a', 'eval:b', 'tck:a', 'add:n1,a', 'add:n2,b', 'deploy', 'eval:a', 'eval:b']
 
 
